@@ -1,4 +1,4 @@
-// Counterexample found by mirsym/z3 for property C05, template dfs_disj_node_in_conj: |x, y| { dfs { member(x, [p0, p1]), dfsor { member(y, [p2, p3]), [member(y, [p4, p5]), x != y] }, q == [x, y] } } with parameters [2, -2, 0, -3, -2, 2]: answer 1 differs (expected answers ['[2, 0]', '[2, -3]', '[2, -2]', '[-2, 0]', '[-2, -3]', '[-2, 2]'], engine answers ['[2, 0]', '[2, -2]', '[2, -3]', '[-2, 0]', '[-2, -3]', '[-2, 2]'])
+// Counterexample found by mirsym/z3 for property C05, template dfs_disj_node_in_conj: |x, y| { dfs { member(x, [p0, p1]), dfsor { member(y, [p2, p3]), [member(y, [p4, p5]), x != y] }, q == [x, y] } } with parameters [2, -2, 0, -3, -2, 2]: answer 2 differs (expected answers ['[2, 0]', '[2, -3]', '[2, -2]', '[-2, 0]', '[-2, -3]', '[-2, 2]'], engine answers ['[2, 0]', '[2, -3]', '[-2, 0]', '[-2, -3]', '[2, -2]', '[-2, 2]'])
 // Replay: /verif/check C05 --replay /verif/replay/cases/C05-dfs_disj_node_in_conj_answers.rs
 #![allow(unused_imports, unused_variables, unused_mut)]
 use proto_vulcan::prelude::*;
